@@ -246,6 +246,20 @@ type c12Gen struct {
 	r       *vrng
 	methods []c12Method // declared so far (name, argc)
 	names   [][]byte
+	nest    int // While / If bodies that hold declarations, currently open
+}
+
+// declBody: now and then the body of a While / If holds declarations (Method, Field, BankField, Name, Buffer, ...):
+// in the strict pass they are parsed with parseModeAllBlocks (a Method is built while lookups are possible, field
+// units are appended next to an object that is being parsed, deferred opcodes are nested)
+func (g *c12Gen) declBody() []byte {
+	if g.nest >= 2 || !g.r.chance(30) {
+		return nil
+	}
+	g.nest++
+	b := g.termList(0, 1+g.r.intn(3))
+	g.nest--
+	return b
 }
 type c12Method struct {
 	name []byte
@@ -433,6 +447,7 @@ func (g *c12Gen) stmt(depth int) []byte {
 			for k := r.intn(3); k > 0; k-- {
 				body = append(body, g.stmt(depth-1)...)
 			}
+			body = append(body, g.declBody()...)
 			out := g.pkg([]byte{0xa0}, body)
 			if r.chance(30) {
 				var eb []byte
@@ -449,6 +464,7 @@ func (g *c12Gen) stmt(depth int) []byte {
 			for k := r.intn(3); k > 0; k-- {
 				body = append(body, g.stmt(depth-1)...)
 			}
+			body = append(body, g.declBody()...)
 			return g.pkg([]byte{0xa2}, body)
 		}
 	case 3: // Return
